@@ -121,6 +121,12 @@ func (e *Engine) Select(fn *ssa.Function, want Want) (sel []VPath, unknown []*Pa
 	if err != nil {
 		return nil, nil, err
 	}
+	return e.SelectFrom(ps, fn, want)
+}
+
+// SelectFrom is Select over a given enumeration of fn's paths (e.g. those of a closure enumerated in the
+// context of its creator).
+func (e *Engine) SelectFrom(ps []*Path, fn *ssa.Function, want Want) (sel []VPath, unknown []*Path, err error) {
 	for _, p := range ps {
 		if p.End != EndReturn {
 			continue
